@@ -153,14 +153,25 @@ func c03OptStr(p *string) vf.Wire {
 	return vf.Str(*p)
 }
 
+// alg is the algorithm of an entry as RFC 7515 §7.2.1 lets it be carried: the protected header's
+// "alg" when present (non-empty), otherwise the unprotected header's; "" when neither has one.
 func (e c03Entry) alg() string {
-	if e.Prot != nil {
+	if e.Prot != nil && *e.Prot != "" {
 		return *e.Prot
 	}
 	if e.Hdr != nil {
 		return *e.Hdr
 	}
 	return ""
+}
+
+func c03AnyNilProtected(es []c03Entry) bool {
+	for _, e := range es {
+		if e.Prot == nil {
+			return true
+		}
+	}
+	return false
 }
 
 // ---------------------------------------------------------------- JWS
@@ -243,7 +254,8 @@ func execC03Jws(c *vf.Ctx, d *vf.Driver, cs c03Case, r *vf.Rand) {
 		a := ""
 		if p != nil {
 			a = string(p.Algorithm())
-		} else if h != nil {
+		}
+		if a == "" && h != nil {
 			a = string(h.Algorithm())
 		}
 		consulted = append(consulted, a)
@@ -302,7 +314,7 @@ func execC03Jws(c *vf.Ctx, d *vf.Driver, cs c03Case, r *vf.Rand) {
 	agree := g.Tag == m.Tag && (g.Tag != "ok" || int64(accepted) == m.Val.AsInt())
 	if !agree {
 		cls := "c03-jws-verify"
-		if g.Tag == "panic" && cs.Finder.Type == "jwk" && cs.Entries[0].Prot == nil {
+		if g.Tag == "panic" && cs.Finder.Type == "jwk" && c03AnyNilProtected(cs.Entries) {
 			cls = "c03-jws-keyfinder-nil-protected-panic"
 		}
 		c.Fail(vf.Violation{Kind: "correspondence", Class: cls, What: "jws.Verifier.Verify: goat and model disagree", Case: cs,
